@@ -115,18 +115,20 @@ type analysis struct {
 	attempts []*attempt
 	demands  int
 
-	classifyMissing func(d demand) (plain, pendingPast, stale []string)
+	classifyMissing func(d demand) (plain, pendingPast []string)
 }
 
-// staleSig is the signature of "an active, assigned validator was left out because every validators
-// answer the scheduler got for that epoch is so old that it does not even carry the validator's
-// activation epoch" (validator cache refreshed only on the first slot of an epoch, which a missed
-// tick can skip).
-const staleSig = "scheduler+validator-cache/active-assigned-validator-omitted/validators-answer-did-not-report-it-active"
+// predatesInfo counts (active, assigned) validators left out of a trigger, or duties never triggered,
+// because every validators answer the scheduler was given for that epoch's resolution predates the
+// validator's activation: it lists the validator neither as active nor as pending with an activation
+// epoch <= the epoch. The statement lets missed slot ticks skip duties, so this is counted, not judged
+// (same rule as for the inactive-validator oracle, which also goes by what the scheduler was told).
+const predatesInfo = "omitted_because_validators_answer_predates_activation"
 
-// pendingPastSig: same cause, but the (old) validators answer did carry the information: the
-// validator is listed as pending with an activation epoch before the epoch being resolved, and
-// resolveActiveValidators drops it because it only accepts ActivationEpoch == epoch.
+// pendingPastSig: the (old) validators answer given to the scheduler did carry the information: the
+// validator is listed as pending with an activation epoch before the epoch being resolved (and not
+// exited), yet the scheduler left it out (resolveActiveValidators accepting only ActivationEpoch ==
+// epoch; fixed in /repo by d1401ed).
 const pendingPastSig = "scheduler/resolve-active-validators/pending-validator-with-earlier-activation-epoch-omitted"
 
 var kindOfType = map[core.DutyType]kind{
@@ -337,7 +339,6 @@ func analyze(sc *scenario, sn snapshot, reorgFeature bool) *analysis {
 		}
 		sort.Strings(omitted)
 		sort.Strings(pendingPast)
-		sort.Strings(stale)
 		if len(pendingPast) > 0 {
 			add(pendingPastSig,
 				fmt.Sprintf("duty %v delivered without validators %v: they are active in epoch %d and assigned by the beacon node; the validators answers the scheduler used listed them as pending with an activation epoch before %d (cached status older than one epoch), and the scheduler only accepts a pending validator whose activation epoch equals the epoch being resolved", tr.Duty, pendingPast, e, e),
@@ -348,11 +349,10 @@ func analyze(sc *scenario, sn snapshot, reorgFeature bool) *analysis {
 				fmt.Sprintf("duty %v delivered without validators %v although they are active, assigned, and were offered to the scheduler with an intact beacon node answer", tr.Duty, omitted),
 				map[string]any{"duty": tr.Duty.String(), "omitted": omitted, "sub": tr.Sub})
 		}
-		if len(stale) > 0 {
-			add(staleSig,
-				fmt.Sprintf("duty %v delivered without validators %v: they are active in epoch %d and assigned by the beacon node, but every validators answer given to the scheduler for that epoch was too old to list them as active", tr.Duty, stale, e),
-				map[string]any{"duty": tr.Duty.String(), "omitted": stale, "sub": tr.Sub})
-		}
+		// Validators that no validators answer given to the scheduler for this epoch reported as active (or as
+		// pending with an activation epoch <= the epoch and not exited) are outside the completeness demand: the
+		// scheduler was never told about them (cached answer predates the activation after missed first-slot ticks).
+		an.info[predatesInfo] += len(stale)
 
 		// offset / not-early
 		start := sc.slotStart(slot)
@@ -435,7 +435,13 @@ func analyze(sc *scenario, sn snapshot, reorgFeature bool) *analysis {
 					}
 					var want []*mval
 					for _, v := range expected {
-						want = append(want, v)
+						if c := classify(v, t, slot); c == "offered" || c == "offered-as-pending-with-earlier-activation-epoch" {
+							want = append(want, v)
+						}
+					}
+					if len(want) == 0 { // nobody the scheduler was told about: nothing is demanded
+						an.info[predatesInfo+"/whole_duty"]++
+						continue
 					}
 					sort.Slice(want, func(i, j int) bool { return want[i].Idx < want[j].Idx })
 					an.missing = append(an.missing, demand{Duty: duty, Frame: f, Want: want})
@@ -451,19 +457,16 @@ func analyze(sc *scenario, sn snapshot, reorgFeature bool) *analysis {
 			}
 		}
 	}
-	an.classifyMissing = func(d demand) (plain, pendingPast, stale []string) {
+	an.classifyMissing = func(d demand) (plain, pendingPast []string) {
 		for _, v := range d.Want {
-			switch classify(v, d.Duty.Type, d.Duty.Slot) {
-			case "offered":
+			if classify(v, d.Duty.Type, d.Duty.Slot) == "offered" {
 				plain = append(plain, fmt.Sprint(v.Idx))
-			case "offered-as-pending-with-earlier-activation-epoch":
+			} else {
 				pendingPast = append(pendingPast, fmt.Sprint(v.Idx))
-			default:
-				stale = append(stale, fmt.Sprint(v.Idx))
 			}
 		}
 
-		return plain, pendingPast, stale
+		return plain, pendingPast
 	}
 
 	return an
